@@ -193,9 +193,6 @@ def _plan(prop, T):
                 ord_random("rel", "lookup", colls, 4800, T),
                 ord_random("asan", "lookup", colls, 1600, T),
                 dict(flavour="rel", suite="big", args=dict(max_n=4000000 if T else 400000, probes="lookup", only_coll=tree), shards=16, timeout=3400 if T else 150),
-                # values whose Clone may panic (the entry move of a two-children removal clones the successor)
-                dict(flavour="dbg", suite="fault", args=dict(clonefault=1, only_kind="value_clone", colls=("MapTree" if is_map else "SetTree")), shards=8, budget=2800 * 8 * (8 if T else 1), seed_offset=51),
-                dict(flavour="dbg", suite="ord-closure", args=dict(mon="lookup", fault=1, clonefault=1, only_kind="value_clone", sets=(("maptree:8:8,maptree:7:0,maptree:9:1,maptree:6:9" if is_map else "settree:8:8,settree:7:0,settree:9:1,settree:6:9") if T else ("maptree:7:8,maptree:6:0,maptree:8:1,maptree:5:9" if is_map else "settree:7:8,settree:6:0,settree:8:1,settree:5:9"))), shards=4, timeout=3000 if T else 120),
                 miri("ord-random", 64, 8, T, mon="lookup", coll=colls, **MIRI_ORD),
             ],
             rule="evaluation = one get_value / is_empty compared with a BTreeMap reference (full sweep over the key universe after every delete in small universes; stored keys and neighbours in large ones), values carry unique ids and heap payloads; distinct non-trivial = distinct (reference key set, operation) + closed canonical shapes with >= 2 entries",
@@ -211,8 +208,6 @@ def _plan(prop, T):
                 ord_random("rel", "handle", "maptree+settree", 4800, T),
                 ord_random("asan", "handle", "maptree+settree", 1600, T),
                 dict(flavour="rel", suite="big", args=dict(max_n=4000000 if T else 400000, probes="handle"), shards=16, timeout=3400 if T else 150),
-                dict(flavour="dbg", suite="fault", args=dict(clonefault=1, only_kind="value_clone", colls="MapTree,SetTree"), shards=8, budget=2800 * 8 * (8 if T else 1), seed_offset=52),
-                dict(flavour="dbg", suite="ord-closure", args=dict(mon="handle", fault=1, clonefault=1, only_kind="value_clone", sets=("maptree:8:8,settree:8:0,maptree:7:1,settree:7:9" if T else "maptree:7:8,settree:7:0,maptree:6:1,settree:6:9")), shards=4, timeout=3000 if T else 120),
                 miri("ord-random", 64, 8, T, mon="handle", coll="maptree+settree", **MIRI_ORD),
             ],
             rule="evaluation = one first_index_less / first_index_less_by (3 monotone comparators) whose handle is dereferenced and compared with the reference predecessor, or one write / delete through such a handle followed by a lookup sweep; distinct non-trivial = distinct (reference key set, operation, probe) + closed canonical shapes",
@@ -300,8 +295,8 @@ def _plan(prop, T):
                 dict(flavour="dbg", suite="key-closure", args=dict(mon="none", twin=1, coll="list", sets=(KEY_SETS_THOROUGH if T else KEY_SETS_QUICK)), shards=nsets(KEY_SETS_THOROUGH if T else KEY_SETS_QUICK), timeout=3000 if T else 120),
                 dict(flavour="dbg", suite="clear-twin", args=dict(), shards=16, budget=14000 * 10 * (8 if T else 1)),
                 dict(flavour="rel", suite="clear-twin", args=dict(), shards=16, budget=21000 * 10 * (8 if T else 1), seed_offset=9),
-                dict(flavour="rel", suite="big", args=dict(max_n=4000000 if T else 400000, probes="clear"), shards=16, timeout=3400 if T else 150),
-                dict(flavour="rel", suite="seg-bulk", args=dict(mon="query,purge,tiling,layout", max_n=(6000000 if T else 300000)), shards=8, timeout=3400 if T else 120),
+                dict(flavour="rel", suite="big", args=dict(max_n=4000000 if T else 400000, probes="clear-obs"), shards=16, timeout=3400 if T else 150),
+                dict(flavour="rel", suite="seg-bulk", args=dict(mon="query", max_n=(6000000 if T else 300000)), shards=8, timeout=3400 if T else 120),
                 miri("clear-twin", 28, 7, T, small=1),
             ],
             rule="evaluation = one operation executed after clear() on the cleared instance and on a freshly constructed twin (other capacity hint) with identical observations required (values by id offset, handles by dereferenced entry), reference model alongside; distinct non-trivial = distinct (history, suffix position)",
